@@ -15,7 +15,7 @@ RULE = ("spec->code: every history of reads / mutations of earlier results / wri
 def run(ctx):
     rng = random.Random(ctx.seed)
     thorough = ctx.tier == "thorough"
-    contents = ["full", "nowell", "nel"] + (["cyr"] if thorough else [])
+    contents = ["full", "nowell", "nel", "indent"] + (["cyr"] if thorough else [])
     optids = ["default", "preserve"] if not thorough else ["default", "preserve", "normal"]
     maxops = 4
     base = ("SPECIFICATION Spec\nCONSTANTS\n  Contents = {%s}\n  HasWell <- HW\n  Channels = {\"str\", \"Path\", \"file\", \"StringIO\", \"string\"}\n"
